@@ -1,7 +1,7 @@
 use crate::helpers::{case_style::snakify, non_enum_error, HasStrumVariantProperties};
 use proc_macro2::TokenStream;
 use quote::{format_ident, quote, ToTokens};
-use syn::{Data, DeriveInput};
+use syn::{ext::IdentExt, Data, DeriveInput};
 
 pub fn enum_try_as_inner(ast: &DeriveInput) -> syn::Result<TokenStream> {
     let variants = match &ast.data {
@@ -31,9 +31,9 @@ pub fn enum_try_as_inner(ast: &DeriveInput) -> syn::Result<TokenStream> {
                         quote! {#name}
                     }).collect();
 
-                    let move_fn_name = format_ident!("try_as_{}", snakify(&variant_name.to_string()));
-                    let ref_fn_name = format_ident!("try_as_{}_ref", snakify(&variant_name.to_string()));
-                    let mut_fn_name = format_ident!("try_as_{}_mut", snakify(&variant_name.to_string()));
+                    let move_fn_name = format_ident!("try_as_{}", snakify(&variant_name.unraw().to_string()));
+                    let ref_fn_name = format_ident!("try_as_{}_ref", snakify(&variant_name.unraw().to_string()));
+                    let mut_fn_name = format_ident!("try_as_{}_mut", snakify(&variant_name.unraw().to_string()));
 
                     Ok(Some(quote! {
                         #[must_use]
